@@ -739,7 +739,7 @@ theorem matrix_runs (n : String) (h w : Nat) (cells : List (List Int)) (s : S)
     (by
       have : s3.vm.matrix = s2.vm.matrix := rfl
       rw [this, hm2]; simp)
-    hcells hr3.dur_wire
+    rfl rfl hcells hr3.dur_wire
   rw [tile_cells h w cells hlen, light?_name hl3] at hdo
   refine ⟨{ s3 with vm := s3.vm.emit (.setTile n cells 0 w h) }, ?_,
     ⟨ready_emit hr3 _, hd3, ?_⟩⟩
